@@ -57,6 +57,30 @@ def gen(chk, tier):
                   alias="none")
             if rng.random() < 0.3:
                 g.one("%s_pred" % field, "fiat.pred", field=field, a=b32(a), b=b32(rng.choice([a, b])))
+        # operands constructed so that the MONTGOMERY-domain result is small (< 2^256 - m): the
+        # accumulator before the final conditional subtraction is then either c or c + m, i.e. the
+        # subtraction decision is at its boundary (about half of these take each side)
+        R = T256 % m
+        Rinv = pow(R, -1, m)
+        for _ in range(40 if q else 600):
+            cm = rng.randrange(0, T256 - m) if rng.random() < 0.8 else rng.choice([0, 1, T256 - m - 1])
+            xm = rng.randrange(1, m)
+            ym = cm * R % m * pow(xm, -1, m) % m          # xm * ym / R = cm  (mod m)
+            a, b = xm * Rinv % m, ym * Rinv % m
+            g.one("%s_mul_small_montgomery_result" % field, "fiat.op", field=field, fn="mul", a=b32(a), b=b32(b), alias="none")
+            # square: need a root of cm * R
+            t = cm * R % m
+            if pow(t, (m - 1) // 2, m) in (0, 1):
+                rt = pow(t, (m + 1) // 4, m) if m % 4 == 3 else None
+                if rt is not None and rt * rt % m == t:
+                    for root in (rt, m - rt):
+                        g.one("%s_square_small_montgomery_result" % field, "fiat.op", field=field, fn="square",
+                              a=b32(root * Rinv % m), alias="none")
+            # add / sub with a small Montgomery-domain result
+            g.one("%s_add_small_montgomery_result" % field, "fiat.op", field=field, fn="add", a=b32(xm * Rinv % m),
+                  b=b32((cm - xm) % m * Rinv % m), alias="none")
+            g.one("%s_sub_small_montgomery_result" % field, "fiat.op", field=field, fn="sub", a=b32(xm * Rinv % m),
+                  b=b32((xm - cm) % m * Rinv % m), alias="none")
         # decoding: canonical check at the modulus
         for v in [0, 1, m - 2, m - 1, m, m + 1, m + 2, T256 - 1, (m & ~0xff), m | 0xff, m ^ (1 << 255)]:
             v %= T256
